@@ -115,7 +115,7 @@ class Instance:
 
     def materialize(self, F: FState) -> None:
         drivers.write_tree(self.root, self.file_map(F))
-        drivers.install_fixture(self.root, self.u.fixture)
+        drivers.install_fixture(self.root, self.u.fixture, self.u.typing_fixture)
 
     # ---------------------------------------------------------------- K
 
